@@ -348,8 +348,10 @@ static void* closer_main(void*) {
     vh::Rng r(vh::mix(vh::args().xseed(), 300));
     Backoff bo;
     if (g_close_mid) {
-        while (g_attempts.load(vh::MO) < g_close_after_attempts && g_senders_done.load(std::memory_order_acquire) < g_S)
-            thread_usleep(r.range(10, 100));
+        while (g_attempts.load(vh::MO) < g_close_after_attempts && g_senders_done.load(std::memory_order_acquire) < g_S) {
+            bo.wait();
+            if (bo.us > 1000) bo.us = 1000;
+        }
         // prefer a moment at which the buffer holds items (bounded number of looks)
         for (int i = 0; g_cap && i < 400 && g_ch->size() == 0 && g_senders_done.load(std::memory_order_acquire) < g_S; ++i) thread_yield();
     } else {
@@ -655,7 +657,7 @@ int main(int argc, char** argv) {
     bool nontrivial = n_recv > 0 && waits > 0 && (falses > 0 || c_close_items.get() > 0 || c_two_senders.get() > 0);
     auto b = [](int64_t v) { return std::to_string(vh::log2bucket((uint64_t)v)); };
     vh::set_sig(std::string(cls_name[g_cls]) + "|c" + std::to_string(g_cap) + "|s" + std::to_string(g_S) + "r" + std::to_string(g_R) + "v" + std::to_string(nv) +
-                    "|h" + std::to_string(g_heap) + "x" + std::to_string(g_script) + "g" + std::to_string(g_gate) + "m" + std::to_string(g_close_mid) + "|" +
+                    "|h" + std::to_string(g_heap) + "x" + std::to_string(g_script) + "g" + std::to_string(g_gate) + "m" + std::to_string(g_close_mid) + "a" + std::to_string(g_await_all) + "|" +
                     vh::cov_signature({C_CHAN_SEND_WAIT, C_CHAN_RECV_WAIT, C_CHAN_SLOT_OVERWRITE}) + "to:" + b(c_send_timeout.get()) + "/" + b(c_recv_timeout.get()) +
                     ",2s:" + b(c_two_senders.get()) + ",ci:" + b(c_close_items.get()) + ",dr:" + b(c_drained_after_close.get()),
                 nontrivial);
